@@ -1016,3 +1016,11 @@ def place_field_owners(prog, b, place):
         elif e[0] == "downcast":
             cur = None
     return out
+
+
+LOCK_METHODS = ("lock", "try_lock", "read", "write", "try_read", "try_write", "blocking_lock", "blocking_read", "blocking_write")
+
+
+def is_lock_call(c):
+    """acquisition of a Mutex / RwLock guard (std, tokio or parking_lot)"""
+    return c.method in LOCK_METHODS and ("Mutex" in (c.self_s or "") or "RwLock" in (c.self_s or ""))
